@@ -360,10 +360,21 @@ pub fn cell_case(idx: u64, rng: &mut Rng, ctx: &Ctx) -> CaseOut {
     let a = addrs(c.v6);
     let medium = if c.eth { Medium::Ethernet } else { Medium::Ip };
     let hw = if c.eth { eth_hw(1) } else { HardwareAddress::Ip };
-    let cidrs: Vec<IpCidr> = vec![
-        IpCidr::new(IpAddress::Ipv4(Ipv4Address::new(192, 168, 1, 1)), 24),
-        IpCidr::new(IpAddress::Ipv6(Ipv6Address::new(0xfd00, 0, 0, 0, 0, 0, 0, 1)), 64),
-    ];
+    // IPv4 cells: in half of the cases the interface has a second IPv4 subnet listed *first*
+    // (instead of the IPv6 address; the address table has two slots), so that the subnet under
+    // test - its broadcast address in particular - is not the first one the stack looks at
+    let two_v4_subnets = !c.v6 && rng.bool();
+    let cidrs: Vec<IpCidr> = if two_v4_subnets {
+        vec![
+            IpCidr::new(IpAddress::Ipv4(Ipv4Address::new(10, 77, 0, 1)), 16),
+            IpCidr::new(IpAddress::Ipv4(Ipv4Address::new(192, 168, 1, 1)), 24),
+        ]
+    } else {
+        vec![
+            IpCidr::new(IpAddress::Ipv4(Ipv4Address::new(192, 168, 1, 1)), 24),
+            IpCidr::new(IpAddress::Ipv6(Ipv6Address::new(0xfd00, 0, 0, 0, 0, 0, 0, 1)), 64),
+        ]
+    };
     let mut h = Host::new(medium, 1500 + if c.eth { 14 } else { 0 }, hw, rng.next_u64(), &cidrs, 0);
     h.dev.prefill = 0;
     let gw4 = Ipv4Address::new(192, 168, 1, 2);
